@@ -354,10 +354,10 @@ theorem parseLine_narrow {l : Str} {s : Stmt} (h : parseLine l = .ok (some s)) :
 
 /-- every string operand that enters the back end is narrow (no hypothesis on the program or the host files) -/
 theorem expand_narrow {fs : Files} {lines : List Str} {parsed ss0 : List Stmt}
-    (hp : parseLines lines = .ok parsed) (he : expand fs 64 [] parsed = .ok ss0) :
+    (hp : parseLines lines = .ok parsed) (he : expand fs (includeFuel fs) [] parsed = .ok ss0) :
     ∀ s ∈ ss0, ∀ x, s.operand.value = .str x → ∀ c ∈ x, c.toNat < 256 :=
   expand_forall_of (Q := fun _ => True) (P := fun s => ∀ x, s.operand.value = .str x → ∀ c ∈ x, c.toNat < 256)
-    (fun _ _ _ h => parseLine_narrow h) fs (fun _ _ _ _ => trivial) 64 [] parsed ss0
+    (fun _ _ _ h => parseLine_narrow h) fs (fun _ _ _ _ => trivial) (includeFuel fs) [] parsed ss0
     (parseLines_forall_of (Q := fun _ => True) (fun _ _ _ h => parseLine_narrow h) lines parsed
       (fun _ _ => trivial) hp) he
 
